@@ -8,7 +8,9 @@ A  K-gen: translator `fmtops` re-reads the statement sequence of writeFileWithBa
 B  K-diff: the real `xgo` binary (go build ./cmd/xgo from the repository) formats files of several kinds / modes
    under `strace -ff`; the system calls that touch the file's directory entry or the temporary file
    (openat O_CREAT|O_EXCL, write, newfstatat of the path, fchmod, close, renameat, unlinkat) are mapped to the
-   model's calls and compared with the trace of the extracted run_wfb; then every crash point is produced on the
+   model's calls (incl. whether the temporary file is created in the directory of the path — also for a bare
+   file name and with TMPDIR on another file system) and compared with the trace of the extracted run_wfb; then
+   every crash point is produced on the
    implementation (strace -e inject=<call>:signal=SIGKILL:when=<n>, kill on entry of the call) and the state of
    the path (old / new content, mode) is compared with the model's crash_state for the number of calls that
    really completed (read back from the killed run's own trace).
@@ -49,6 +51,9 @@ def cases(ctx):
         # "bare": the path is given without a directory part (filepath.Split gives dir "": os.CreateTemp then uses os.TempDir())
         {"id": "reg-644-a.xgo", "kind": "reg", "mode": 0o644, "name": "a.xgo", "src": XGO_SRC},
         {"id": "reg-600-b.go-bare", "kind": "reg", "mode": 0o600, "name": "b.go", "src": GO_SRC, "bare": True},
+        # the same with TMPDIR on another file system: the temporary file must still be created next to the file
+        {"id": "reg-664-c.xgo-bare-tmpdir", "kind": "reg", "mode": 0o664, "name": "c.xgo", "src": XGO_SRC, "bare": True,
+         "tmpdir": "/dev/shm"},
         {"id": "sym-640-l.xgo", "kind": "sym", "mode": 0o640, "name": "l.xgo", "src": XGO_SRC},
     ]
     if not ctx.quick:
@@ -125,9 +130,12 @@ def parse_trace(text, rel, generic=None):
         done = ret is not None and ret != "?" and not ret.startswith("-")
         op = None
         if name == "openat" and "O_CREAT" in args and "O_EXCL" in args and re.search(r'"(?:[^"]*/)?%s\d+"' % base, args):
-            op = "create:" + args.rsplit(",", 1)[1].strip().lstrip("0")
+            tname = re.search(r'"([^"]+)"', args).group(1)
+            same = os.path.dirname(os.path.normpath(os.path.join("/cwd", tname))) == \
+                os.path.dirname(os.path.normpath(os.path.join("/cwd", rel)))
+            op = "create:" + args.rsplit(",", 1)[1].strip().lstrip("0") + (":samedir" if same else ":otherdir")
             if done:
-                tmpname = re.search(r'"([^"]+)"', args).group(1)
+                tmpname = tname
                 fd = ret
         elif fd is not None and name == "write" and args.startswith(fd + ","):
             op = "write:" + (ret if done else "?")
@@ -152,7 +160,7 @@ def parse_trace(text, rel, generic=None):
     return ops
 
 
-def run_strace(ctx, xgo, d, rel, inject=None, generic=None):
+def run_strace(ctx, xgo, d, rel, inject=None, generic=None, tmpdir=None):
     tr = os.path.join(os.path.dirname(d), "tr.txt")
     if os.path.exists(tr):
         os.remove(tr)
@@ -162,7 +170,7 @@ def run_strace(ctx, xgo, d, rel, inject=None, generic=None):
         cmd += ["-e", "inject=%s:signal=SIGKILL:when=%d" % inject]
     cmd += [xgo, "fmt", rel]
     rc, out = ctx.run(cmd, cwd=(d if "/" not in rel else os.path.dirname(d)), timeout=120,
-                      env=dict(os.environ, GOMAXPROCS="1"), mem_kb=16000000)
+                      env=dict(os.environ, GOMAXPROCS="1", **({"TMPDIR": tmpdir} if tmpdir else {})), mem_kb=16000000)
     ops = parse_trace(open(tr, errors="replace").read(), rel, generic) if os.path.exists(tr) else []
     return rc, ops
 
@@ -189,11 +197,18 @@ def run(ctx):
     for c in cs:
         d = os.path.join(ctx.scratch, c["id"], "dir")
         rel = c["name"] if c.get("bare") else "dir/" + c["name"]
+        td = c.get("tmpdir") if c.get("tmpdir") and os.path.isdir(c.get("tmpdir", "")) else None
         # the complete run
         orig = setup(d, c)
         generic = []
-        rc, ops = run_strace(ctx, xgo, d, rel, generic=generic)
+        rc, ops = run_strace(ctx, xgo, d, rel, generic=generic, tmpdir=td)
         runs += 1
+        # nothing may be left behind in TMPDIR / next to the file after a complete run
+        left = [f for f in os.listdir(d) if f.startswith(c["name"]) and f != c["name"]]
+        if td:
+            left += [os.path.join(td, f) for f in os.listdir(td) if f.startswith(c["name"])]
+        if left:
+            ctx.fail("litter:" + c["id"], "temporary file left behind after `xgo fmt`: %s" % left, {"case": c["id"], "files": left})
         st_final, new = state(d, c, orig, None)
         if rc != 0 or new is None or new == orig or not any(o[0].startswith("create") for o in ops):
             ctx.broken("correspondence(c26:run)", "%s: xgo fmt rc=%d ops=%r state=%s" % (c["id"], rc, ops[:8], st_final))
@@ -207,7 +222,7 @@ def run(ctx):
                 for nm, nths in sorted(last.items()):
                     for nth in sorted(set(nths))[-4:]:
                         setup(d, c)
-                        rck, _ = run_strace(ctx, xgo, d, rel, inject=(nm, nth))
+                        rck, _ = run_strace(ctx, xgo, d, rel, inject=(nm, nth), tmpdir=td)
                         runs += 1
                         s_, _d = state(d, c, orig, new)
                         if rck != 0 and not (s_.startswith("old:") or s_.startswith("new:")):
@@ -239,7 +254,7 @@ def run(ctx):
                 if cand < 1 or any(cls(k) == cls(j) for k in points if k != 0):
                     continue
                 setup(d, c)
-                rck, kops = run_strace(ctx, xgo, d, rel, inject=(sname, cand))
+                rck, kops = run_strace(ctx, xgo, d, rel, inject=(sname, cand), tmpdir=td)
                 runs += 1
                 done_ops = [o[0] for o in kops if o[3]]
                 k = len(done_ops)
@@ -257,7 +272,7 @@ def run(ctx):
                 missed_total += 1
         ks = sorted(points)
         impl_lines.append("%s | %s" % (" ".join(seq), " ".join("%d=%s" % (k, points[k]) for k in ks)))
-        model_in.append("%s %o %d %d" % (c["kind"], c["mode"], len(orig), len(new)))
+        model_in.append("%s %o %d %d %d" % (c["kind"], c["mode"], len(orig), len(new), 1 if c.get("bare") else 0))
         meta.append((c, ks, seq))
     if not meta:
         return
@@ -278,7 +293,8 @@ def run(ctx):
         ctx.broken("fault-enumeration(c26)", "only %d of %d crash points could be produced" % (len(covered_total), need))
     ctx.cover(evaluations=runs, distinct_nontrivial=len(covered_total) + len(meta),
               samples=[{"case": m[0]["id"], "implementation": il, "model": pl} for m, il, pl in zip(meta, impl_lines, proj)][:4],
-              rule="%d files (regular / symbolic link, .xgo / .go%s, modes %s); per file one traced complete run + SIGKILL-on-entry runs "
+              rule="%d files (regular / symbolic link, path with a directory part / bare file name (also with TMPDIR on another file "
+                   "system: the temporary file must be created next to the file), .xgo / .go%s, modes %s); per file one traced complete run + SIGKILL-on-entry runs "
                    "until every distinct file-system state between the recorded calls (create, write, stat, fchmod, close, rename) has "
                    "been produced (after create / after write / after fchmod; before create = untouched, after rename = complete run), "
                    "labelled by the calls that really completed; non-trivial = distinct (file, crash point) produced on the implementation + complete runs; "
